@@ -7,7 +7,8 @@
 //       rx <idhex> <len> <hex>                    one frame from the bus; output = delivered message
 //                                                 "prio pgn src dst len hex" or "-"
 //       q                                         dump of the reassembly slots
-// Oracle: reference reassembler written from the property statement, keyed by (PGN, source); see refStep().
+// Oracle: reference reassembler written from the property statement, keyed by (PGN, source); see refStep(); the slot budget
+// ("as many concurrent senders as slots") is time-aware: unfinished messages older than 100 ms do not count, see needPlace().
 #include "node.h"
 #include "spec_tables.h"   // frozen NMEA 2000 lists: SPEC_FAST_PACKET[], SPEC_SINGLE_FRAME[]
 #include <algorithm>
@@ -56,7 +57,7 @@ static bool specKnown(unsigned long pgn) {
 }
 static bool isTPpgn(unsigned long pgn) { return pgn == 60416UL || pgn == 60160UL; }
 
-struct Partial { unsigned prio, dst, seq, next, L; std::vector<unsigned char> bytes; };
+struct Partial { unsigned prio, dst, seq, next, L; std::vector<unsigned char> bytes; uint64_t t0; /* generator clock at its first frame */ };
 typedef std::pair<unsigned long, unsigned> Key;
 static std::map<Key, Partial> ref;
 // case-level facts about the INPUT (used only to name the failing input class)
@@ -68,10 +69,38 @@ static std::string caseKind = "replay";
 
 struct RefOut { bool deliv; Deliv d; bool oversize; };
 
+// Slot budget of "up to as many concurrent senders as there are reassembly slots", time-aware ("slot-reuse timing
+// (100 ms) at any clock value"): an unfinished message whose first frame is more than 100 ms old (generator clock) does
+// not count. A new message of key k needs a place. If fewer than nSlots other messages are unfinished there is one. If
+// all places are taken and the OLDEST unfinished message is more than 100 ms old it has to give way (it is dropped
+// from the reference as well); otherwise the receiver is over-subscribed and only safety is required from here on.
+// Soundness margins: exactly 100 ms, two equally old candidates, or an age near 2^31 ms (beyond the comparison range of
+// a 32-bit millisecond clock) are treated as over-subscription (no delivery is demanded), never as a failure.
+static void needPlace(const std::map<std::pair<unsigned long, unsigned>, Partial>::iterator *self);
+
 static void refDecode(unsigned long id, unsigned &prio, unsigned long &pgn, unsigned &src, unsigned &dst) {
   prio = (id >> 26) & 7; unsigned dp = (id >> 24) & 1, pf = (id >> 16) & 0xff, ps = (id >> 8) & 0xff; src = id & 0xff;
   if (pf < 240) { pgn = ((unsigned long)dp << 16) | ((unsigned long)pf << 8); dst = ps; }
   else { pgn = ((unsigned long)dp << 16) | ((unsigned long)pf << 8) | ps; dst = 255; }
+}
+
+static void needPlace(const std::map<Key, Partial>::iterator *self) {
+  size_t others = ref.size() - (self ? 1 : 0);
+  if (others + 1 <= nSlots) return;
+  if (overloaded) return;
+  // every place is taken by another unfinished message
+  uint64_t oldest = UINT64_MAX; size_t nOldest = 0; bool farApart = false;
+  auto victim = ref.end();
+  for (auto it = ref.begin(); it != ref.end(); ++it) {
+    if (self && it == *self) continue;
+    uint64_t t0 = it->second.t0;
+    if (g_now - t0 >= 2147483648ULL - 1000) farApart = true;
+    if (t0 < oldest) { oldest = t0; nOldest = 1; victim = it; } else if (t0 == oldest) nOldest++;
+  }
+  uint64_t age = g_now - oldest;
+  if (!farApart && nOldest == 1 && age >= 101) { ref.erase(victim); C.count("ref_stale_gave_way"); return; }   // > 100 ms idle: does not count
+  if (age >= 100) C.count("budget_boundary_or_tie_waived");
+  overloaded = true;
 }
 
 // b = the 8 bytes the receiver sees, len = DLC
@@ -82,18 +111,17 @@ static RefOut refStep(unsigned long id, unsigned len, const unsigned char *b) {
   if (mode == 1 && !specKnown(pgn)) return o;       // node handles only known messages
   Key k(pgn, src);
   if (!specFast(pgn)) {                             // single frame: delivered with the DLC as length
-    size_t others = ref.size();
-    if (others + 1 > nSlots) overloaded = true;
+    needPlace(nullptr);
     o.deliv = true; o.d.prio = prio; o.d.pgn = pgn; o.d.src = src; o.d.dst = dst; o.d.len = (int)len; o.d.data.assign(b, b + len);
     return o;
   }
   bool first = (b[0] & 0x1f) == 0;
   if (first) {
     auto it = ref.find(k);
-    size_t others = ref.size() - (it != ref.end() ? 1 : 0);
-    if (others + 1 > nSlots) overloaded = true;
+    needPlace(it != ref.end() ? &it : nullptr);
+    it = ref.find(k);
     if (it != ref.end()) { if (it->second.dst != dst) caseOtherDst = true; else caseSupersede = true; caseDiscard++; }   // superseded
-    Partial p; p.prio = prio; p.dst = dst; p.seq = b[0] >> 5; p.next = 1; p.L = b[1];
+    Partial p; p.prio = prio; p.dst = dst; p.seq = b[0] >> 5; p.next = 1; p.L = b[1]; p.t0 = g_now;
     for (unsigned j = 2; j < len; j++) p.bytes.push_back(b[j]);
     if (p.L <= 223 && p.bytes.size() >= p.L) {
       ref.erase(k); o.deliv = true; o.d.prio = prio; o.d.pgn = pgn; o.d.src = src; o.d.dst = dst; o.d.len = (int)p.L;
@@ -344,6 +372,23 @@ static void recycleCase(Rng &R, const char *fl, unsigned slots, uint64_t origin,
   exec("q");
 }
 
+// directed: every slot is held by an abandoned message (first frame only, started at distinct times just before the clock
+// value `boundary`); after `wait` ms (> 100) the only active senders transmit complete messages: each must be delivered
+// (the oldest stale slot gives way), whatever the clock value - 0, around 2^31, across the 2^32 wrap
+static void staleBudgetCase(Rng &R, const char *fl, unsigned slots, uint64_t origin, uint64_t wait, int variant) {
+  caseKind = "stale_budget";
+  reset(fl, slots, 0, origin);
+  std::vector<unsigned char> pl(20); for (auto &c : pl) c = (unsigned char)R.below(256);
+  for (unsigned i = 0; i < slots; i++) { feed(encode(3, 129029UL, 20 + i, 255, pl, true, 1, 20, false)[0]); tick((uint64_t)R.range(1, 2)); }
+  tick(wait);
+  auto a = encode(2, 127489UL, 90, 255, pl, true, 5, 20, false);
+  auto b = encode(2, 129540UL, 91, 255, pl, true, 6, 20, false);
+  if (variant == 0) { for (auto &f : a) feed(f); for (auto &f : b) feed(f); }                 // one after the other
+  else if (variant == 1) { for (size_t k = 0; k < a.size(); k++) { feed(a[k]); feed(b[k]); } }   // interleaved: two stale slots give way
+  else { GFrame sf = encode(6, 127250UL, 92, 255, std::vector<unsigned char>(8, 0x11), false, 0, 8, false)[0]; feed(sf); for (auto &f : a) feed(f); feed(sf); }
+  exec("q");
+}
+
 // directed: a sender leaves a fast packet unfinished (rest lost) and sends the next one; as many senders as slots
 static void abandonCase(Rng &R, const char *fl, unsigned slots, bool readdress) {
   caseKind = readdress ? "readdress" : "abandon";
@@ -417,6 +462,15 @@ int main(int argc, char **argv) {
     for (uint64_t w : {0ULL, 94ULL, 99ULL, 100ULL, 101ULL, 200ULL})
       for (uint64_t o : {0ULL, 4294967296ULL - 700 - 50, 4294967296ULL - 700 - 103, 77777ULL}) recycleCase(R, fl, slots, o, w);
   }
+  {
+    const uint64_t B31 = 2147483648ULL, B32 = 4294967296ULL;
+    int v = 0;
+    for (unsigned slots = 1; slots <= 8; slots++)
+      for (uint64_t wait : std::vector<uint64_t>{101, 150, 1000})
+        for (uint64_t origin : std::vector<uint64_t>{0, B31 - 700 - 20, B31 - 700 - 5000, B31 - 700 + 50, B32 - 700 - 20, B32 - 700 - 60, B32 - 700 + 20, 2 * B32 - 700 - 18})
+          staleBudgetCase(R, fl, slots, origin, wait, v++ % 3);
+  }
+  C.sample("directed: all slots held by abandoned messages started just before clock value 0+700 / 2^31 +-k / 2^32 (and 2*2^32), next complete messages arrive 101/150/1000 ms later and must be delivered; slots 1..8");
   C.sample("directed: abandon+restart with as many senders as slots; re-addressed restart; sequence-id wrap onto a stale slot; 100 ms recycling at 0/94/99/100/101/200 ms incl. across the 2^32 wrap");
   int ncases = C.thorough ? 2500 : 260;
   for (int i = 0; i < ncases; i++) {
